@@ -11,6 +11,7 @@ soundness of that certificate check (potential argument).
 import AdaptaVerif.Lemmas.Bends
 import AdaptaVerif.Lemmas.BendsTight
 import AdaptaVerif.Lemmas.Hanan
+import AdaptaVerif.Lemmas.OrthGraph
 import Mathlib.Tactic.NormNum
 namespace AdaptaVerif.Props.C05
 open AdaptaVerif.Model.Bends AdaptaVerif.Spec.OrthPath
@@ -114,5 +115,14 @@ theorem hanan_cert_sound (sc : Scene) (c : Cert) (opt : Rat) (h : checkCert sc c
     (∀ r, Lemmas.Hanan.IsRouteCost sc (mkGrid sc) r → opt ≤ r) ∧
       Lemmas.Hanan.IsRouteCost sc (mkGrid sc) opt :=
   Lemmas.Hanan.checkCert_sound h
+
+/-- **Certificate soundness, own-graph variant** (direction-restricted endpoints): if
+    `Check.OrthGraph.checkCert` accepts a potential + witness for the visibility graph dumped from
+    the router and returns `opt`, then `opt` is the minimum cost over all routes of that graph
+    (first hop uncharged, quarter turn `pen`, doubling back `2·pen`, the source is never re-entered). -/
+theorem vg_cert_sound (g : Check.OrthGraph.VG) (c : Check.OrthGraph.Cert) (opt : Rat)
+    (h : Check.OrthGraph.checkCert g c = some opt) :
+    (∀ r, Lemmas.OrthGraph.IsRouteCost g r → opt ≤ r) ∧ Lemmas.OrthGraph.IsRouteCost g opt :=
+  Lemmas.OrthGraph.checkCert_sound h
 
 end AdaptaVerif.Props.C05
